@@ -147,6 +147,19 @@ theorem copy_index_transparent (s : Spec.State) (σ : KVS) (hw : WF s) (hr : Rep
     r.1 = sp.1 ∧ Rep sp.2 r.2.1 ∧ WF sp.2 :=
   createCollectionByQuery_exact_any_plan likeFn fnFam s σ hw hr c hc q fresh hdomain hskip hlimit
 
+/-- (translated, regenerated from the source on every run) **the range of a conjunction, from the source alone**: for two
+    comparisons on one indexed field, the range obtained by running the translated `unaryCriteriaToRange` on each and the
+    translated `Range.Intersect` on the results is the model's `fieldRange` - the object `C02`'s and `C17`'s theorems
+    reason about - for every pair of operators and operands. -/
+theorem source_conjunction_range_is_the_models (op1 op2 : CmpOp) (f : Bytes) (x y : Operand) :
+    (match Gen.unaryCriteriaToRange ⟨Translated.opName op1, f, x⟩, Gen.unaryCriteriaToRange ⟨Translated.opName op2, f, y⟩ with
+     | some r, some r2 => some (Translated.toModel (Gen.Range_Intersect r r2))
+     | some r, none => some (Translated.toModel r)
+     | none, some r2 => some (Translated.toModel r2)
+     | none, none => none)
+    = fieldRange f (.and (.cmp op1 f x) (.cmp op2 f y)) :=
+  Translated.source_conjunction_range op1 op2 f x y
+
 /-- (translated, regenerated from the source on every run) **`removeNotCriteria` as the current source writes it** - how
     the planner pushes a negation into a comparison leaf before it looks for ranges - is the model's `negLeaf`:
     `not (f = x)` becomes `f < x or f > x`, `<` / `>=` and `<=` / `>` swap. -/
